@@ -68,6 +68,10 @@ func c13Prog(pos string, c c13Case) (*Prog, []string) {
 		return &Prog{Tasks: []*T{
 			{Name: "root", Deps: []Ref{D("sib")}, Cmds: []C{P(), Call("mid"), P()}},
 			{Name: "mid", Cmds: []C{P(), {Call: &gref}, P()}}, g, sib}}, []string{"root"}
+	case "call-from-ignoring-task":
+		return &Prog{Tasks: []*T{
+			{Name: "root", Deps: []Ref{D("sib")}, Cmds: []C{P(), Call("mid"), P()}},
+			{Name: "mid", IgnoreError: true, Cmds: []C{P(), {Call: &gref}, P()}}, g, sib}}, []string{"root"}
 	case "once-shared":
 		g.Run = "once"
 		gs := gref
@@ -105,7 +109,7 @@ func c13Check(pg *Prog, pos string, c c13Case) func(x *vlab.Exec) []vlab.Violati
 				if e.Task == "root" {
 					after["root"] = true
 				}
-			case "call":
+			case "call", "call-from-ignoring-task":
 				if (e.Task == "mid" && j == 2) || (e.Task == "root" && j == 2) {
 					after[e.Task] = true
 				}
@@ -150,8 +154,11 @@ func c13Check(pg *Prog, pos string, c c13Case) func(x *vlab.Exec) []vlab.Violati
 func c13Units(tier string) []*Unit {
 	var us []*Unit
 	for _, c := range c13Cases() {
-		for _, pos := range []string{"direct", "dep", "call", "once-shared"} {
+		for _, pos := range []string{"direct", "dep", "call", "once-shared", "call-from-ignoring-task"} {
 			c := c
+			if pos == "call-from-ignoring-task" && !(c.blocked && (c.kind == "requires" || c.kind == "enum" || c.kind == "precondition" || c.kind == "prompt")) {
+				continue // only blocking guards whose error is not an exit status: ignore_error must not swallow them
+			}
 			if c.kind == "internal" {
 				if pos != "direct" && pos != "dep" {
 					continue
